@@ -1804,7 +1804,7 @@ uint32_t bufr_cvt_fval_to_i32(int code, BufrValueEncoding *be, float fval)
    uint32_t  ival, rem;
    uint64_t  maxval;
    uint64_t  missing;
-   float     val_pow;
+   float     val_pow, inv_pow = 1.0;
    int64_t   ival_pow;
    double    val1;
    float     fmin, fmax;
@@ -1830,8 +1830,18 @@ uint32_t bufr_cvt_fval_to_i32(int code, BufrValueEncoding *be, float fval)
    val_pow = pow(10.0,(double)be->scale);
 /* integer power for the integer part of fval; where it does not fit, fmax < 1 and that part is 0 */
    ival_pow = (val_pow < 9.0e18) ? (int64_t)val_pow : 0;
-   fmin = be->reference / val_pow;
-   fmax = ((int64_t)(maxval-1) + be->reference) / val_pow;
+   if (be->scale < 0)
+      {
+/* 10^-scale is exact where 10^scale is not: multiply by it rather than divide by val_pow */
+      inv_pow = pow(10.0,(double)(-be->scale));
+      fmin = be->reference * inv_pow;
+      fmax = ((int64_t)(maxval-1) + be->reference) * inv_pow;
+      }
+   else
+      {
+      fmin = be->reference / val_pow;
+      fmax = ((int64_t)(maxval-1) + be->reference) / val_pow;
+      }
 
    if (fval > fmax)
       {
@@ -1882,7 +1892,7 @@ uint32_t bufr_cvt_fval_to_i32(int code, BufrValueEncoding *be, float fval)
       }
    else
       {
-      int sval = round(fval * val_pow);
+      int sval = round(fval / inv_pow);
       ival = sval - be->reference;
       if (ival >= maxval) overflow = 1;
       }
@@ -1944,6 +1954,10 @@ double bufr_cvt_i64_to_dval(BufrValueEncoding *be, int64_t ival)
    missing = bufr_missing_ivalue( be->nbits );
    if ((ival < 0)||(ival == missing)) return bufr_get_max_double();
 
+/* 10^-scale is exact where 10^scale is not: multiply by it rather than divide by val_pow */
+   if (be->scale < 0)
+      return (double)(ival + be->reference) * pow(10.0,(double)(-be->scale));
+
    val_pow = pow(10.0,(double)be->scale);
 
    if ((be->reference < 0) && (ival < (-be->reference)))
@@ -1981,6 +1995,15 @@ float bufr_cvt_i32_to_fval(BufrValueEncoding *be, uint32_t ival)
    missing = bufr_missing_ivalue( be->nbits );
    if (ival == missing) return bufr_get_max_float();
 
+/* 10^-scale is exact where 10^scale is not: multiply by it rather than divide by val_pow */
+   if (be->scale < 0)
+      {
+      val_pow = pow(10.0,(double)(-be->scale));
+      if ((be->reference < 0) && (ival < (-be->reference)))
+         return (float)(int32_t)(ival + be->reference) * val_pow;
+      return (float)(ival + be->reference) * val_pow;
+      }
+
    val_pow = pow(10.0,(double)be->scale);
 
    if ((be->reference < 0) && (ival < (-be->reference)))
@@ -2016,7 +2039,7 @@ uint64_t bufr_cvt_dval_to_i64(int code, BufrValueEncoding *be, double fval)
    uint64_t  ival, rem;
    uint64_t  maxval;
    uint64_t  missing;
-   double    val_pow;
+   double    val_pow, inv_pow = 1.0;
    int64_t   ival_pow;
    double    val1;
    double    fmin, fmax;
@@ -2042,8 +2065,18 @@ uint64_t bufr_cvt_dval_to_i64(int code, BufrValueEncoding *be, double fval)
    val_pow = pow(10.0,(double)be->scale);
 /* integer power for the integer part of fval; where it does not fit, fmax < 1 and that part is 0 */
    ival_pow = (val_pow < 9.0e18) ? (int64_t)val_pow : 0;
-   fmin = be->reference / val_pow;
-   fmax = ((int64_t)(maxval-1) + be->reference) / val_pow;
+   if (be->scale < 0)
+      {
+/* 10^-scale is exact where 10^scale is not: multiply by it rather than divide by val_pow */
+      inv_pow = pow(10.0,(double)(-be->scale));
+      fmin = be->reference * inv_pow;
+      fmax = ((int64_t)(maxval-1) + be->reference) * inv_pow;
+      }
+   else
+      {
+      fmin = be->reference / val_pow;
+      fmax = ((int64_t)(maxval-1) + be->reference) / val_pow;
+      }
 
    if (fval > fmax)
       {
@@ -2094,7 +2127,7 @@ uint64_t bufr_cvt_dval_to_i64(int code, BufrValueEncoding *be, double fval)
       }
    else
       {
-      int64_t sval = round(fval * val_pow);
+      int64_t sval = round(fval / inv_pow);
       ival = sval - be->reference;
       if (ival >= maxval) overflow = 1;
       }
